@@ -3618,7 +3618,9 @@ class BoutMesh(Mesh):
                 if f_region._centre_array is not None:
                     f.centre[self.region_indices[region.myID][0], :] = f_region.centre
                 if f_region._xlow_array is not None:
-                    f.xlow[self.region_indices[region.myID]] = f_region.xlow[:-1, :]
+                    f.xlow[self.region_indices[region.myID][0], :] = f_region.xlow[
+                        :-1, :
+                    ]
                 if f_region._ylow_array is not None:
                     raise ValueError("Cannot have an x-direction array at ylow")
                 if f_region._corners_array is not None:
@@ -3916,10 +3918,17 @@ class BoutMesh(Mesh):
             # member
             chi.ylow = 2.0 * numpy.pi * self.zShift.ylow / self.ShiftAngle.centre
             # set to NaN in divertor leg regions where chi is not valid
+            # Note: the arrays include the boundary guard cells at the targets, which
+            # the jyseps* indices do not count
+            if jyseps2_1 != jyseps1_2:
+                # Second pair of targets before the outer core region
+                myg_outer = 3 * myg
+            else:
+                myg_outer = myg
             for c in [chi.centre, chi.xlow, chi.ylow]:
-                c[:, : jyseps1_1 + 1] = float("nan")
-                c[:, jyseps2_1 + 1 : jyseps1_2 + 1] = float("nan")
-                c[:, jyseps2_2 + 1 :] = float("nan")
+                c[:, : jyseps1_1 + 1 + myg] = float("nan")
+                c[:, jyseps2_1 + 1 + myg : jyseps1_2 + 1 + myg_outer] = float("nan")
+                c[:, jyseps2_2 + 1 + myg_outer :] = float("nan")
             chi.attributes["bout_type"] = "Field2D"
             self.writeArray("chi", chi, f)
 
